@@ -195,6 +195,7 @@ func genFuzzCase(r *rand.Rand, bias string) FuzzCase {
 	if bias == "C18" || bias == "C02" {
 		pcc = 0.6
 	}
+	total := 0.0
 	for s := 0; s < nsteps; s++ {
 		st := FuzzStep{Res: r.IntN(nres), Spelling: 0}
 		if chance(r, 0.3) {
@@ -253,6 +254,14 @@ func genFuzzCase(r *rand.Rand, bias string) FuzzCase {
 		}
 		if len(h) > 0 {
 			st.Header = h
+		}
+		// the bubble's clock must stay below 2262 (int64 nanoseconds): beyond it
+		// go1.25's fake clock saturates and the next Sleep crashes the runtime
+		total += st.DtS
+		if total > 200*365*86400 {
+			total -= st.DtS
+			st.DtS = 1
+			total++
 		}
 		st.Reuse = chance(r, 0.12)
 		c.Steps = append(c.Steps, st)
